@@ -4,14 +4,81 @@ manifest is always valid)."""
 import json, os
 V = os.path.dirname(os.path.dirname(os.path.abspath(__file__)))
 
-CLAIMED = {
- "C15": {
-  "category": "proof",
-  "text": "Coq theorems (Properties_C15.v) prove for every width 8/16/32/64, every index inside the width and every underlying value that the model of bitset_base get_bit/set_bit (written through CInt.v, i.e. with C++ integral promotion and shift UB) reads exactly bit n and changes exactly bit n; raw value/equality/visit corollaries. The model is tied to /repo by running the extracted model and the real bitset_base<T> plus sbeppc-generated set classes (named, by-tag, visit, ==) on the same cases (8/16 bit exhaustive values, patterns for 32/64), under g++ C++11/17(UBSan)/20 and as static_asserts (constant evaluation).",
-  "design_ref": "DESIGN.md section 5 C15",
-  "note": "Trusted: Coq kernel; CInt.v as a model of LP64 C++ integer semantics; the hand-written model Bitset.v (tied by differential runs, not proved against the C++ text); extraction (ExtrOcamlBasic) and OCaml/C++ harness glue.",
-  "technique": "Coq proof (Z.testbit algebra over a CInt model) + differential correspondence vs extracted model"},
-}
+CLAIMED = {}
+
+
+def claim(pid, category, text, note, technique, design_ref=None):
+    CLAIMED[pid] = {"category": category, "text": text, "note": note, "technique": technique,
+                    "design_ref": design_ref or ("DESIGN.md section 5 " + pid)}
+
+
+TB = ("Trusted: Coq 8.16.1 kernel; the hand-written Gallina model (tied to /repo by differential runs on shared inputs, "
+      "not proved against the C++ text); extraction (ExtrOcamlBasic only) and the OCaml/Python/C++ harness glue; "
+      "g++ 12 / clang++ 14 as the executors of the C++ side; LP64 little-endian host.")
+
+claim("C01", "proof",
+      "Theorems (Properties_C01.v): both set_primitive implementations write enc(byte order, width, value) for every width; "
+      "validator offsets are the SBE offsets (explicit honoured, else end of predecessor, constants take no space) and never "
+      "overlap or leave the block, for every field list; blockLength >= content; composite members in order; a setter at any "
+      "path changes exactly the located member's bytes (frame) and reads back. The script-level statement (in-order setter "
+      "script = Wire.over_message image) is NOT proved; it is decided by correspondence: random accepted schemas are compiled "
+      "by /repo's sbeppc, the generated code runs random in-order encode scripts on random backgrounds and the final bytes must "
+      "equal the extracted reference encoder Wire.over_message and the runtime model.",
+      TB + " Partial: script-level theorem missing; C++ standards/compilers sampled (quick: g++ C++11/20).",
+      "Coq proof (layout algebra, codec, frame) + differential correspondence against extracted reference encoder")
+claim("C02", "proof",
+      "Theorems (Properties_C02.v): codec round trips for all widths/both byte orders; both get_primitive implementations "
+      "(bit_cast and memcpy+byteswap) compute dec; typed view keeps raw bits (NaN payloads); on ANY buffer containing the "
+      "image Msg.enc_message of a well-formed value tree, root field getters, group location (position, wire blockLength, "
+      "count), data payloads and size_bytes return exactly what the encoder placed (proved for the root level; any-depth "
+      "versions are stated in CursorSpec.v and proved when CursorProofs.v lands). Correspondence: images from the extracted "
+      "reference encoder (independent of the library's setters) decoded by /repo's generated code vs. model vs. values "
+      "computed directly from the encoder's block bytes.",
+      TB + " Constant evaluation and all standards x compilers only in the thorough tier / partially.",
+      "Coq proof (decode/encode round trip, navigation by induction over the value tree) + differential correspondence")
+claim("C03", "proof",
+      "Same navigation theorems as C02 (Properties_C03.v): in Msg.enc_message every level instance carries a block of arbitrary "
+      "length (the wire blockLength), so level_end/groups_end/size_bytes/field/group/data location theorems hold for every "
+      "schema extension amount at every level independently. Correspondence: reference-encoder images with block lengths "
+      "inflated independently per level; random access dump (C03), cursor traversal and visit (C04/C19 checks run on inflated "
+      "images too).",
+      TB, "Coq proof (navigation over value trees with per-level wire block lengths) + differential correspondence")
+claim("C04", "proof",
+      "Theorems (Properties_C04.v): the generator's independently recomputed cursor (relative, absolute) offsets agree with "
+      "the validator's for every accepted field list, and it never throws after validation. Single-call equivalence, misuse "
+      "reporting and the traversal-end theorem are stated in CursorSpec.v (proofs in progress, added to Properties_C04.v when "
+      "CursorProofs.v lands). Correspondence: Cursor.v (all five wrappers x field/group/data primitives, cursor_range "
+      "iteration, empty-entry constructor) vs /repo's generated code: complete traversals (events + final cursor = image "
+      "size) and random (member, wrapper) call sequences from init or arbitrary cursor offsets on every level view: value / "
+      "address, cursor after each call and assertion-handler outcome must all agree.",
+      TB, "Coq proof (offset agreement) + differential correspondence of an executable cursor state machine")
+claim("C05", "proof",
+      "Theorems (Properties_C05.v): size_bytes(message) = |image| for every value tree; level/group walks end at the image "
+      "end; flat group size through CInt (product in size_t, as the code does after the fix) is exact whenever it fits; the "
+      "pre-fix arithmetic is refuted by vm_compute (uint16 x uint16 UB, uint32 x uint32 wrap). The trait-level formula "
+      "theorem (trait_size = |image|) is stated in CursorSpec.v (proof in progress). Correspondence: all 16 (numInGroup, "
+      "blockLength) type pairs x boundary values incl. products around 2^15/2^16/2^31/2^32 and type maxima; random images: "
+      "size_bytes(message/group/entry), cursor size after traversal and message_traits::size_bytes(counts..., total) all equal "
+      "the image length.",
+      TB, "Coq proof (size = image length by induction; C++ integer semantics via CInt) + differential correspondence")
+claim("C14", "proof",
+      "18 theorems (Properties_C14.v) over a list model of static_array_ref: exact result of every assign/assign_string/"
+      "assign_range/fill overload for every N, content, input <= N and eos mode (result = pre ++ spec ++ post, returned "
+      "iterator), strlen/strlen_r with independent characterisations, over-long input behaviour with the real order of copy "
+      "and assertion. Correspondence: exhaustive for N <= 4 over {NUL,a,b}, random for N = 5, 16, four overload families, "
+      "three eos modes, constant-evaluation static_asserts.",
+      TB, "Coq proof (list functions) + exhaustive small-scope differential correspondence")
+claim("C15", "proof",
+      "Coq theorems (Properties_C15.v) prove for every width 8/16/32/64, every index inside the width and every underlying value that the model of bitset_base get_bit/set_bit (written through CInt.v, i.e. with C++ integral promotion and shift UB) reads exactly bit n and changes exactly bit n; raw value/equality/visit corollaries. Tied to /repo by running the extracted model and the real bitset_base<T> plus sbeppc-generated set classes (named, by-tag, visit, ==) on the same cases (8/16 bit exhaustive values, patterns for 32/64), under g++ C++11/17(UBSan)/20 and as static_asserts (constant evaluation).",
+      TB, "Coq proof (Z.testbit algebra over a CInt model) + differential correspondence vs extracted model")
+claim("C19", "proof",
+      "Correspondence-led (theorem stmt_trav_message_enc in CursorSpec.v states the event list of a complete visit = "
+      "ev_level computed from the value tree alone, members once, in schema order, at the random-access addresses, cursor at "
+      "the end; proof in progress). Check: recording visitor over sbepp::visit on random images vs Cursor.trav_message: "
+      "event order/values/addresses, member tag names in schema order, final cursor; stop at the k-th callback for every k "
+      "(exactly the first k events); get_by_tag vs named accessors for every member. Set visit is covered by C15.",
+      TB + " Partial: enum visit (unknown tag) not modelled yet; theorem not yet closed.",
+      "differential correspondence of a Coq traversal model; Coq theorem stated (proof pending)")
 
 NOT_YET = {}
 ALL = ["C%02d" % i for i in range(1, 21)]
